@@ -4,7 +4,7 @@
 PROP=$1; N=$2; NAME=$3; WT=/tmp/mut/$PROP; OUT=${OUTDIR:-/tmp/mut/$PROP.out}
 cd $WT || exit 2
 git checkout -q -- . ; git apply $OUT/m$N.diff || { echo "APPLY-FAIL"; exit 1; }
-BL=1; for try in 1 2 3; do /root/tools/baseline.py $WT > /tmp/mut/bl.$$ 2>&1; BL=$?; [ $BL -eq 0 ] && break; done  # ptys tests flake under load
+BL=1; for try in 1 2 3; do /tmp/mut/baseline.py $WT > /tmp/mut/bl.$$ 2>&1; BL=$?; [ $BL -eq 0 ] && break; done  # ptys tests flake under load
 PYTHONPATH=$WT/src timeout 120 /venv/bin/python $OUT/demo_m$N.py > /tmp/mut/d1.$$ 2>&1; D1=$?
 git checkout -q -- .
 PYTHONPATH=$WT/src timeout 120 /venv/bin/python $OUT/demo_m$N.py > /tmp/mut/d0.$$ 2>&1; D0=$?
@@ -17,7 +17,7 @@ if [ $BL -eq 0 ] && [ $D1 -ne 0 ] && [ $D0 -eq 0 ]; then
 import json
 m=json.load(open("$OUT/meta_m$N.json"))
 m["verified"]={"baseline_with_patch":"tools/baseline.py: stable_missing=0","demo_with_patch_exit":$D1,"demo_without_patch_exit":$D0,
- "how":"applied in a scratch worktree of /repo (HEAD incl. fix: commits); ran /root/tools/baseline.py and the demo with and without the patch"}
+ "how":"applied in a scratch worktree of /repo (HEAD incl. fix: commits); ran /tmp/mut/baseline.py and the demo with and without the patch"}
 m["demo_output_with_patch"]=open("/tmp/mut/d1.$$").read()[-600:]
 json.dump(m,open("/verif/seeded/$NAME/meta.json","w"),indent=1)
 PY
